@@ -304,6 +304,31 @@ pub fn continuations(ctx: &Ctx, mode: &Mode, cfg: &TokCfg, witnesses: &[Vec<u16>
     total.load(Ordering::Relaxed)
 }
 
+/// Job 4: from every control-state witness, every ASCII character and a few non-ASCII ones
+/// (character classes that are not lexemes of the alphabet), followed by short continuations.
+pub fn ascii_sweep(ctx: &Ctx, mode: &Mode, cfg: &TokCfg, witnesses: &[Vec<u16>], stats: &Stats) -> u64 {
+    let lex = lexemes();
+    let mut chars: Vec<char> = (0u8..=127).map(|b| b as char).collect();
+    chars.extend(['\u{80}', '\u{a0}', '\u{ff}', '\u{130}', '\u{212a}', '\u{2028}', '\u{fdd0}', '\u{fffd}', '\u{ffff}', '\u{10ffff}']);
+    let conts = ["", ">", "=x>", "a>", "\"'>-->]]>", "\n"];
+    let n = AtomicU64::new(0);
+    witnesses.par_iter().for_each(|w| {
+        let prefix = render(&lex, w);
+        let pre = sched_of(&lex, w);
+        for &c in &chars {
+            for k in conts {
+                let suffix = format!("{c}{k}");
+                let mut sched = pre.clone();
+                sched.push(Feed::Chunk(suffix.clone()));
+                check_one(ctx, mode, cfg, &sched, &format!("{prefix}{suffix}"), "ascii-sweep");
+                n.fetch_add(1, Ordering::Relaxed);
+            }
+        }
+    });
+    stats.execs.fetch_add(n.load(Ordering::Relaxed), Ordering::Relaxed);
+    n.load(Ordering::Relaxed)
+}
+
 /// Job 3: SIMD window sweep in the data state.
 pub fn simd_windows(ctx: &Ctx, mode: &Mode, stats: &Stats, maxlen: usize) -> u64 {
     let specials = ["\n", "\r", "\r\n", "<", "&", "\0", "\u{e9}", "&amp;", "<b>"];
@@ -363,6 +388,7 @@ pub fn main(ctx: &Ctx, lines: bool) -> ! {
     let mut max_depth = 0;
     let mut ctl_total = 0usize;
     let mut cont_total = 0u64;
+    let mut ascii_total = 0u64;
     let k = ctx.tier.pick(2, 3);
     let per_cfg = budget / cfgs.len() as f64;
     for cfg in &cfgs {
@@ -381,6 +407,7 @@ pub fn main(ctx: &Ctx, lines: bool) -> ! {
         let kk = if cfg.start == 0 && cfg.last_start_tag.is_none() && !cfg.cdata { k } else { k.min(2) };
         let c = continuations(ctx, &mode, cfg, &ws, kk, &stats);
         cont_total += c;
+        ascii_total += ascii_sweep(ctx, &mode, cfg, &ws, &stats);
         jobs.push(json!({
             "config": witness(cfg, &[]), "states": out.states, "transitions": out.transitions, "max_depth": out.max_depth,
             "closed": out.closed, "capped_by": out.capped_by, "control_states": cs.len(), "continuation_k": kk, "continuations": c,
@@ -402,12 +429,13 @@ pub fn main(ctx: &Ctx, lines: bool) -> ! {
             "traces_validated_against_impl": stats.execs.load(Ordering::Relaxed),
             "evaluations": stats.execs.load(Ordering::Relaxed),
             "distinct_nontrivial": stats.outcomes.lock().unwrap().len(),
-            "rule": "job1: product BFS (real tokenizer fed one lexeme per chunk x R-tok), every transition compared under 2 closers; job2: from the shortest witness of every control state (state x reconsume x ignore_lf x char-ref sub-state) all lexeme strings of length <= k in one chunk; job3: data-state strings of 15..N x's with up to two special items at every pair of positions (SIMD stride, mask and tail). distinct_nontrivial = distinct reference token streams among a 1/64 slice of job 2/3 inputs.",
+            "rule": "job1: product BFS (real tokenizer fed one lexeme per chunk x R-tok), every transition compared under 2 closers; job2: from the shortest witness of every control state (state x reconsume x ignore_lf x char-ref sub-state) all lexeme strings of length <= k in one chunk; job4: from every control-state witness every ASCII character and 10 non-ASCII ones x 6 continuations; job3: data-state strings of 15..N x's with up to two special items at every pair of positions (SIMD stride, mask and tail). distinct_nontrivial = distinct reference token streams among a 1/64 slice of job 2/3 inputs.",
             "exhaustive": all_closed,
             "frontier_closed": all_closed,
             "max_depth": max_depth,
             "control_states": ctl_total,
             "continuations": cont_total,
+            "ascii_sweep_runs": ascii_total,
             "simd_window_strings": simd,
             "configs": jobs,
             "samples": [deepest, "<a b=\n\"x\">\n", format!("{P16}\r\n<b>")],
